@@ -25,6 +25,12 @@ def run(tier):
              300 if tier == 'quick' else 3000)
     ck.floor('functions containing a buffer hand-over', sum(r['res']['steal_functions'] for r in res),
              60 if tier == 'quick' else 600)
+    # R02.5 also on the NDEBUG flavour: with asserts on, a path that violates an internal consistency
+    # assert ends in __assert_fail and is not a returning path; what users run has no such cut
+    res2 = corpus.run_over(cfgs, 'svlib.rules.ir_pair', 'analyse_tu_shrink')
+    irrules.aggregate(ck, res2)
+    ck.floor('returning paths of shrink_to_fit judged (NDEBUG flavour)', sum(r['res']['shrink_paths'] for r in res2 if r['ok']),
+             30 if tier == 'quick' else 300)
     irrules.run_canaries(ck, {'ir_pair': [('R02.1', 'canary_unpaired'), ('R02.2', 'canary_steal_unguarded')]},
                          silent=('canary_ok_alloc',), assert_flavour=True)
     for part in ('c02_observers',):
